@@ -3,20 +3,29 @@
    regular-expression engine does (backtracking from position 0, ".*" greedy, first success
    wins) and [is_match] what Regex::is_match reports (the match found must span the whole string);
    [fn] is fnmatch on that sequence: does SOME way of matching the whole string exist. *)
-Require Import GlobEngine GlobBT Glob GlobSpec GlobParse PathModel Paths PathsProofs.
+Require Import GlobEngine GlobBT GlobNFA Glob GlobSpec GlobParse PathModel Paths PathsProofs.
 From Coq Require Import List Arith Bool.
 Import ListNotations.
 
-(* engine half: first-match backtracking + full-length test = whole-string fnmatch, for every
-   sequence of tests and every subject (no bound on lengths or on the number of stars) *)
-Theorem C12_engine_is_fnmatch : forall r s, is_match r s = fn r s.
-Proof. exact is_match_fnmatch. Qed.
+(* engine half.  Since 7a55db0 a glob is matched piece by piece over the set of positions the pieces so far can reach
+   ([nfa], no backtracking): that decides whole-string fnmatch for every sequence of tests and every subject (no bound on
+   lengths or on the number of stars). *)
+Theorem C12_engine_is_fnmatch : forall r s, nfa r s = fn r s.
+Proof. exact nfa_fnmatch. Qed.
 Print Assumptions C12_engine_is_fnmatch.
 
+(* the engine of the pinned code - one regular expression for the whole glob, Oniguruma-style backtracking from position 0,
+   first success wins, then the full-length test - decides the same, as long as the search is allowed to finish; the real
+   engine gave up after 10^7 backtracking steps and Regex::is_match turned that into a panic (find . -name '*a*a*a*a*a*a*b'
+   on a 60-character name), which is why the matcher was replaced *)
+Theorem C12_backtracking_engine_complete : forall r s, is_match r s = fn r s.
+Proof. exact is_match_fnmatch. Qed.
+Print Assumptions C12_backtracking_engine_complete.
+
 (* always the entire string, never a substring: a trailing or leading remainder is a mismatch *)
-Theorem C12_whole_string : forall f c s, is_match [RSingle f] (c :: s) = f c && match s with [] => true | _ => false end.
+Theorem C12_whole_string : forall f c s, nfa [RSingle f] (c :: s) = f c && match s with [] => true | _ => false end.
 Proof.
-  intros f c s. rewrite is_match_fnmatch. cbn. destruct s; reflexivity.
+  intros f c s. rewrite nfa_fnmatch. cbn. destruct s; reflexivity.
 Qed.
 Print Assumptions C12_whole_string.
 
